@@ -421,7 +421,13 @@ def apefile(d):
         return dict(foreign=[("body", d[:end])], tags=None, padding=None, extra=dict(v1=id3v1_at_end(d), tag_region=None))
     start, end, a, b, count = loc
     items = ape_items(d, a, b, count)
-    return dict(foreign=[("body", d[:start])], tags=items, padding=None, extra=dict(v1=len(d) > end, tag_region=(start, end)))
+    body = d[:start]
+    v1_before = False
+    if id3v1_at_end(body):
+        # mutagen appends a new APEv2 tag behind an existing ID3v1 tag; the ID3v1 tag is not audio
+        body = body[:-128]
+        v1_before = True
+    return dict(foreign=[("body", body)], tags=items, padding=None, extra=dict(v1=len(d) > end, v1_before=v1_before, tag_region=(start, end)))
 
 
 # ---------------------------------------------------------------- MP4
@@ -626,7 +632,7 @@ def asf(d):
                         tags.append(("META" if g2 == G_META else "LIB", name, lang, stream, _asf_value(t, v)))
                     need(q == len(p2), "asf: slack in metadata object")
                 elif g2 == G_PAD:
-                    pass
+                    padding += len(p2)      # padding inside the header extension counts as tag padding too
                 else:
                     foreign.append(("hext:" + g2.hex(), p2))
         else:
